@@ -241,7 +241,11 @@ fn worker_body(prop: &'static dyn Prop, args: WorkerArgs) {
         return Err(TestCaseError::fail(format!("generator-panic/{}/{}", e.0, e.1)));
       }
     };
+    let t_case = std::time::Instant::now();
     let o = checked(prop, &art);
+    if t_case.elapsed().as_millis() > 2000 && std::env::var("VERIF_TRACE").is_ok() {
+      eprintln!("SLOW CASE {} ms: {}", t_case.elapsed().as_millis(), serde_json::to_string(&art).unwrap_or_default().chars().take(3000).collect::<String>());
+    }
     if !shrinking {
       let mut st = stats_cell.borrow_mut();
       st.absorb(&o, &known);
